@@ -75,8 +75,8 @@ Proof.
     + apply containing_contains in Hc. unfold contains in Hc. apply andb_prop in Hc. destruct Hc as [C1 C2].
       apply Z.leb_le in C1. apply Z.ltb_lt in C2. unfold c_end in C2.
       apply IH in H. rewrite H. rewrite skipn_length. lia.
-    + destruct (tp - c_pos (new_cont d dcs) <? 0); [discriminate|].
-      destruct (0 <? Z.min (Z.of_nat (length l)) (c_size (new_cont d dcs) - (tp - c_pos (new_cont d dcs)))) eqn:Hp.
+    + destruct (tp - c_pos (new_cont d tp dcs) <? 0); [discriminate|].
+      destruct (0 <? Z.min (Z.of_nat (length l)) (c_size (new_cont d tp dcs) - (tp - c_pos (new_cont d tp dcs)))) eqn:Hp.
       * apply Z.ltb_lt in Hp. apply IH in H. rewrite H. rewrite skipn_length. lia.
       * apply IH in H. exact H.
 Qed.
